@@ -421,6 +421,7 @@ func judge(r *core.Run, o *outcome) {
 		last := 0
 		for idx, k := range fin.keys {
 			count[k.data]++
+			r.Check(k.data != 0 || k.state == 6, "data-wiped-without-destroy", desc(fmt.Sprintf("ring %d key %d has lost its key material but is not in state destroyed: %s (effect of a failed or half-applied operation)", p, k.seq, fin)))
 			r.Check(k.data >= 0, "undecryptable-key", desc(fmt.Sprintf("ring %d key %d does not decrypt under its own context", p, k.seq)))
 			if idx > 0 {
 				r.Check(k.seq > last, "seqnum-order", desc(fmt.Sprintf("ring %d: sequence numbers not strictly increasing: %s", p, fin)))
